@@ -38,9 +38,10 @@ func (o c14Op) String() string {
 
 func c14Ops() []c14Op {
 	var ops []c14Op
-	for _, t := range []string{"a", "b", "c", ""} {
+	for _, t := range []string{"a", "b", "c", "", "ab"} {
 		ops = append(ops, c14Op{kind: "AddType", typ: t})
 	}
+	ops = append(ops, c14Op{kind: "AddRel", typ: "a", rel: j.Rel{FromType: "a", FromName: "bc", ToType: "ab", ToName: "c"}})
 	for _, t := range []string{"a", "b", "c", "zz"} {
 		ops = append(ops, c14Op{kind: "RemoveType", typ: t})
 	}
@@ -50,6 +51,7 @@ func c14Ops() []c14Op {
 			c14Op{kind: "AddAttr", typ: t, attr: j.Attr{Name: "", Type: j.AttrTypeString}},
 			c14Op{kind: "AddAttr", typ: t, attr: j.Attr{Name: "x", Type: j.AttrTypeInvalid}},
 			c14Op{kind: "AddAttr", typ: t, attr: j.Attr{Name: "y", Type: 99, Nullable: true}},
+			c14Op{kind: "AddAttr", typ: t, attr: j.Attr{Name: "y", Type: -1}},
 			c14Op{kind: "RemoveAttr", typ: t, name: "x"},
 			c14Op{kind: "RemoveAttr", typ: t, name: "q"},
 			c14Op{kind: "AddRel", typ: t, rel: j.Rel{FromType: t, FromName: "r", ToOne: true, ToType: "a"}},
@@ -73,6 +75,9 @@ func c14Ops() []c14Op {
 		two("a", "r", "c", "s"), // c may be missing
 		two("c", "r", "a", "s"),
 		two("b", "r", "a", "s"), // non-normalised, other names
+		// names whose concatenations coincide: type "a"+"bc" and type "ab"+"c"
+		two("a", "bc", "ab", "c"),
+		two("ab", "c", "a", "bc"),
 	)
 	return ops
 }
